@@ -140,7 +140,15 @@ func runHS(c *Case) []string {
 				key, verdict := checkRequest(raw, extra)
 				sum := sha1.Sum([]byte(key + "258EAFA5-E914-47DA-95CA-C5AB0DC85B11"))
 				acc := base64.StdEncoding.EncodeToString(sum[:])
-				out := append(bytes.ReplaceAll(tmpl, []byte("@A@"), []byte(acc)), frames...)
+				swapped := []byte(acc)
+				for i, ch := range swapped {
+					if ch >= 'A' && ch <= 'Z' {
+						swapped[i] = ch + 32
+					} else if ch >= 'a' && ch <= 'z' {
+						swapped[i] = ch - 32
+					}
+				}
+				out := append(bytes.ReplaceAll(bytes.ReplaceAll(tmpl, []byte("@A@"), []byte(acc)), []byte("@S@"), swapped), frames...)
 				closing := false
 				if closeAt >= 0 && closeAt < len(out) {
 					out = out[:closeAt]
